@@ -502,10 +502,17 @@ void bufr_set_key_int32( BufrDescValue *cv, int descriptor, int *values, int nbv
    for (i = 0; i < nbval ; i++)
       {
 		if( bufr_is_missing_int(values[i]) )
+			{
+			/* a missing key is the missing float: it compares equal to a
+			 * missing element of any numeric type */
 			cv->values[i] = bufr_create_value( VALTYPE_FLT32 );
+			bufr_value_set_float( cv->values[i], bufr_missing_float() );
+			}
 		else
+			{
 			cv->values[i] = bufr_create_value( VALTYPE_INT32 );
-      bufr_value_set_int32( cv->values[i], values[i] );
+			bufr_value_set_int32( cv->values[i], values[i] );
+			}
       }
    }
 
@@ -644,10 +651,15 @@ void bufr_set_key_qualifier_int32( BufrDescValue *cv, int descriptor,
    cv->descriptor = descriptor | QUAL_FLAG_BIT;
    bufr_valloc_DescValue( cv, 1 );
 	if( bufr_is_missing_int(value) )
+		{
 		cv->values[0] = bufr_create_value( VALTYPE_FLT32 );
+		bufr_value_set_float( cv->values[0], bufr_missing_float() );
+		}
 	else
+		{
 		cv->values[0] = bufr_create_value( VALTYPE_INT32 );
-	bufr_value_set_int32( cv->values[0], value );
+		bufr_value_set_int32( cv->values[0], value );
+		}
    }
 
 /**
